@@ -13,6 +13,9 @@ EXTP = ['emp1,emp2,emp3,emp4,emp5,emp6;era5;get4', 'emp1,emp2,emp3,emp4,emp5,emp
         'emp1,emp2,emp3,emp4,emp5,emp6,emp7;era6,era5;get4;get7', 'emp1,emp2,emp3,emp4,emp5,emp6;era5,emp7;get4,get7']
 # every key has the same hash value (non-trivial keys are stored as their hash): lookups have to tell the keys of one extension list apart
 EQH = ['emp1,emp2,emp3,emp4,emp5,emp6;get4,get6;get5,era5', 'emp1,emp2,emp3,emp4,emp5;emp6,get4;get5,get1', ';emp1,emp2,emp3,emp4,emp5,get4,get5,era4,get5,emp6,get6,get1']
+# a reader between its key match and its value load while the key is erased and ANOTHER key takes the freed slot (array part of the bucket,
+# last item / middle item / full array): only the version the removal bumps tells the reader that the slot changed hands
+SLOT = ['emp1,emp2;era2,emp3;get2,get3', 'emp1;era1,emp2;get1,get2', 'emp1,emp2,emp3;era3,emp4;get3,get4', 'emp1,emp2,emp3;era1,emp4;get3,get1', 'emp1,emp2;ext2,emp3;get2;get3']
 GROW = [';emp1,emp2,emp3,emp4,emp5;get1,emp6,get5', ';emp1,emp2,emp3,emp4;emp5,emp6,emp7,emp8;get3,get7', 'emp1,emp2,emp3;emp4,emp5,era1;emp6,get1,get4']
 
 
@@ -41,6 +44,11 @@ def run(ctx):
                 deep.append('vy128%sc/%s;%s' % (m, r, p))
                 if not q:
                     deep.append('vy1%sc/%s;%s' % (m, r, p))
+            for p in SLOT:
+                n += 1
+                if q and not (m in ('ii', 'is') and r in ('hp3', 'ebr0')) and (n + ctx.seed) % 9 != 0:
+                    continue
+                deep.append('vy8%sc/%s;%s' % (m, r, p))
             for p in EQH:
                 n += 1
                 if m in ('si', 'sm', 'ii') and (not q or r in ('hp3', 'ebr0')):
